@@ -13,6 +13,6 @@ for r in reps:
     for o in obs:
         print("==", o.name, o.result, o.path)
         if o.result!='unsat':
-            for h in o.hyps[-int(sys.argv[4]) if len(sys.argv)>4 else -12:]: print("   H:", str(h)[:400])
+            for h in o.hyps[-int(sys.argv[4]) if len(sys.argv)>4 else -12:]: print("   H:", str(h)[:int(sys.argv[6]) if len(sys.argv)>6 else 400])
             print("   G:", str(o.goal)[:1500])
             print("   M:", o.model[:int(sys.argv[5]) if len(sys.argv)>5 else 1500])
